@@ -61,7 +61,7 @@ def showOut : Out Bool → String
 def layoutLine : String :=
   "layout eth=14 dot3=14 dot1q=4 ip=20 ipv6=40 tcp=20 udp=8 icmp=8 icmpv6=8 dns=12 bootp=236 dhcpv6=4 " ++
   "radiotap=4 loopback=4 arp=28 icmp.echo=8/0 icmp.ts=13/14 icmp.mask=17/18 icmp.unreach=3 icmpv6.echo=128/129 " ++
-  "icmpv6.rs=133/134 icmpv6.ns=135/136 ip.proto.icmp=1 ext=0,43,44,51,59,60,135"
+  "icmpv6.rs=133/134 icmpv6.ns=135/136 ip.proto.icmp=1 ext=0,43,44,59,60,135"
 
 def step (st : Unit) (line : String) : Unit × String :=
   match words line with
